@@ -198,7 +198,7 @@ func Run(r *mc.Run) {
 			revs = append(revs, t, "1"+t)
 		}
 	}
-	ws := []string{"", " ", "\t", "\n"}
+	ws := []string{"", " ", "\t", "\n", "\r", "\r\n", " \t "} // CR / CRLF: the line ending of a CRLF control file
 	r.Scenario("A-grammar-to-parts", map[string]interface{}{"epoch_texts": epochs, "upstream": "digit + |s|<=2 over 01a.+~-: (':' only with epoch, '-' only with revision)", "revisions": "absent + |s| in 1..2 over 0a.+~", "whitespace": "none/space/tab/newline each side", "entry_points": "Parse UnmarshalControl UnmarshalText"},
 		len(ups), func(i int, st *mc.Stats) bool {
 			u := ups[i]
